@@ -1,4 +1,5 @@
 import SlimModel.Basic
+import Driver.Trie
 /-
   Driver.Loop — the model side of the line protocol (see harness/lp/lp.go).
 
@@ -11,7 +12,7 @@ import SlimModel.Basic
 namespace Driver
 
 structure DState where
-  unit : Unit := ()
+  trie : Trie.State := Trie.init
 
 def famOf (tok : String) : String := (tok.splitOn ".").headD ""
 
@@ -19,6 +20,7 @@ def dispatch (st : DState) (line : String) : DState × String :=
   if line.startsWith "#" then (st, "#") else
   let toks := line.splitOn " "
   match famOf (toks.headD "") with
+  | "trie" => let (s, a) := Trie.step st.trie toks; ({ st with trie := s }, a)
   | _ => (st, "bad-op")
 
 partial def loop (inp out : IO.FS.Stream) (st : DState) : IO Unit := do
